@@ -3,6 +3,7 @@
 use crate::common::*;
 use identity_did::DID;
 use identity_iota_core::{IotaDID, NetworkName};
+use identity_core::convert::FromJson;
 
 fn value_obs(d: &IotaDID, obs: &mut Vec<i64>) {
   obs.push(1);
@@ -66,6 +67,28 @@ pub fn exec(case: &[i64]) -> Outcome {
         _ => Outcome::new(vec![-2]).class("eq-bad").trivial(),
       }
     }
+    4 => {
+      // every construction route of an IotaDID from one string: parse, FromStr, TryFrom<&str>, TryFrom<String>, try_from_core, TryFrom<CoreDID>,
+      // TryFrom<BaseDIDUrl>, serde, and the id of an IotaDocument deserialised from JSON
+      use std::str::FromStr;
+      let bytes = take_bytes(&mut v).unwrap();
+      let s = match String::from_utf8(bytes) { Ok(s) => s, Err(_) => return Outcome::new(vec![0]).class("not-utf8").trivial() };
+      let routes: Vec<Option<IotaDID>> = vec![
+        IotaDID::parse(&s).ok(), IotaDID::from_str(&s).ok(), IotaDID::try_from(s.as_str()).ok(), IotaDID::try_from(s.clone()).ok(),
+        identity_did::CoreDID::parse(&s).ok().and_then(|c| IotaDID::try_from_core(c).ok()),
+        identity_did::CoreDID::parse(&s).ok().and_then(|c| IotaDID::try_from(c).ok()),
+        identity_did::BaseDIDUrl::parse(&s).ok().and_then(|b| IotaDID::try_from(b).ok()),
+        serde_json::from_value::<IotaDID>(serde_json::Value::String(s.clone())).ok(),
+        identity_iota_core::IotaDocument::from_json_value(serde_json::json!({"doc": {"id": s}, "meta": {}})).ok().map(|d| d.id().clone()),
+      ];
+      let mut obs = vec![]; let mut o_fail: Option<String> = None;
+      for (k, r) in routes.iter().enumerate() { match r { None => obs.push(0), Some(d) => { value_obs(d, &mut obs); if let Some(w) = checks(d) { o_fail.get_or_insert(format!("route {k}: {w}")); } } } }
+      // values obtained through different routes from one string must be equal when network and tag agree
+      for a in routes.iter().flatten() { for b in routes.iter().flatten() { if (a == b) != (a.network_str() == b.network_str() && a.tag_str().eq_ignore_ascii_case(b.tag_str())) { o_fail.get_or_insert("two routes give values that are unequal although network and tag bytes agree".into()); } } }
+      let mut o = Outcome::new(obs).class(if routes.iter().any(|r| r.is_some()) { "routes-ok" } else { "routes-err" });
+      if let Some(w) = o_fail { o = o.fail(&w); }
+      o
+    }
     _ => Outcome::new(vec![-998]).fail("bad case kind"),
   }
 }
@@ -109,6 +132,9 @@ pub fn gen(rng: &mut Rng, thorough: bool, sink: &mut Sink) {
     let mut c = vec![2]; put_bytes(&mut c, hexs.as_bytes()); put_bytes(&mut c, n.as_bytes()); sink.case(c, "new");
     sink.case(bcase(1, format!("did:iota:{}:0x{}", n, hexs).as_bytes()), "parse-network");
   }
+  // (b2) every construction route on the interesting spellings
+  for n in ["", "iota:", "IOTA:", "smr:", "Smr:", "iota1:", "abcdefg:", "a:b:"] { for t in [tag, tag_up, "0x", ""] { for m in ["iota", "IOTA", "key"] { for tl in ["", "#f", "/p", "?q=1", " "] {
+    sink.case(bcase(4, format!("did:{}:{}{}{}", m, n, t, tl).as_bytes()), "routes"); } } } }
   // (c) equality pairs
   let t2 = "0x0000000000000000000000000000000000000000000000000000000000000001";
   let mut pool: Vec<String> = Vec::new();
